@@ -162,7 +162,15 @@ def parseInt64 (s : Bytes) : Option Int :=
     if neg then (if n ≤ 2^63 then some (-(n : Int)) else none)
     else (if n < 2^63 then some (n : Int) else none)
 
-def fmtNat (n : Nat) : Bytes := (toString n).toList.map (·.toNat)
+/-- Decimal digits of `n`, most significant first (`strconv.Itoa` / `%d`); fuelled so
+    that proofs go by structural induction. -/
+def natDigitsAux : Nat → Nat → Bytes → Bytes
+  | 0, _, acc => acc
+  | fuel+1, n, acc =>
+    if n < 10 then (48 + n) :: acc
+    else natDigitsAux fuel (n / 10) ((48 + n % 10) :: acc)
+
+def fmtNat (n : Nat) : Bytes := natDigitsAux (n + 1) n []
 
 def fmtInt (i : Int) : Bytes :=
   if i < 0 then 0x2D :: fmtNat i.natAbs else fmtNat i.toNat
